@@ -331,6 +331,10 @@ def _campaign(rng, tier, nspecs, nvals, opts, tag, with_clone):
         for ty in type_names(rep):
             for word, nwords in ((0xFFFFFFFF, 16), (0xFFFFFFFF, 256), (1, 256), (2, 64)) + (((0xFFFFFFFF, 2048), (3, 1024)) if tier != "quick" else ()):
                 add(k, ty, 0, word.to_bytes(4, "big") * nwords, "nested")
+    # the decidable hypotheses of the specification-level theorems, evaluated by the model on every specification
+    flags = []
+    for line in run_driver(["outputok " + t3.hx(t) for t in texts]):
+        flags.append(dict(f.split("=", 1) for f in line.split()[1:] if "=" in f) if line.startswith("ok") else {})
     impl = batch.run(reqs)
     model = run_driver(spec_lines + reqs)[len(spec_lines):]
     sizes = batch.run(["sizes %d" % k for k in range(len(texts))])
@@ -338,7 +342,7 @@ def _campaign(rng, tier, nspecs, nvals, opts, tag, with_clone):
         m["impl"], m["model"] = i, mo
     return {"cases": meta, "specs": [{"text": c["text"], "flags": c["meta"]["flags"], "status": batch.status.get(str(k), "?"),
                                       "compile_errors": batch.compile_errors.get(str(k)), "loaded": loaded[k], "sizes": sizes[k],
-                                      "arrrec": array_recursive(c.get("items") or [])}
+                                      "arrrec": array_recursive(c.get("items") or []), "flags": flags[k]}
                                      for k, c in enumerate(cases_spec)]}
 
 
